@@ -665,6 +665,10 @@ class DifferentialEvolutionHyperbandScheduler(SynchronousHyperbandCommon):
                 trial_id = self.bracket_manager.top_of_previous_rung(
                     bracket_id=bracket_id, pos=pos
                 )
+                if trial_id is None:
+                    # Slot of a failed job, which had to be promoted because
+                    # too few trials of the rung below have valid results
+                    trial_id = self._draw_random_trial_id()
             parent_trial_ids.append(trial_id)
         if self._debug_log is not None:
             msg += "\n" + str(parent_trial_ids)
